@@ -230,12 +230,16 @@ def drv_numeric(c, ctx, col):
     key = "numeric terms=[%s] (ordering none)%s" % (desc, " cluster_by=numerical_factors" if cluster else "")
     fo = Formula(tl, _ordering="none")
     try:
-        R = fo.get_model_matrix(df, output="numpy", cluster_by=cb)
-        F = fo.get_model_matrix(df, output="numpy", ensure_full_rank=False, cluster_by=cb)
+        R = fo.get_model_matrix(df, output=ctx.get("output", "numpy"), cluster_by=cb)
+        F = fo.get_model_matrix(df, output=ctx.get("output", "numpy"), ensure_full_rank=False, cluster_by=cb)
     except Exception as e:  # noqa
         col.violation(key, {"error": "%s: %s" % (type(e).__name__, e)}, sig="materialization-raised:" + type(e).__name__)
         return
-    Rm, Fm = np.asarray(R, dtype=float), np.asarray(F, dtype=float)
+    from props.common import dense
+    Rm, Fm = dense(R), dense(F)
+    if Rm.shape[0] != len(df) or Fm.shape[0] != len(df) or np.isnan(Rm).any() or np.isnan(Fm).any():
+        col.violation(key, {"formula": desc, "shape_reduced": list(Rm.shape), "shape_unreduced": list(Fm.shape), "rows": len(df)}, sig="numeric:rows-or-nan")
+        return
     r, c1 = gap_rank(Rm)
     rf, c2 = gap_rank(Fm)
     rj, c3 = gap_rank(np.hstack([Rm, Fm]))
@@ -319,6 +323,12 @@ def subchecks(tier, seed):
     subs.append(Sub("numeric-rank-falsy-levels", drv_numeric, {"names": ["K", "E", "F", "a"], "N": 2 if quick else 3, "contrasts": [None], "frame": falsy_frame(),
                                                                "cfg": "falsy-levels", "dims": {"K": 2, "E": 1, "F": 1}}, shard_depth=3,
                     bounds={"factors": ["K (levels 0,1,2)", "E (levels '', 'b')", "F (levels False, True)", "a"], "max_terms": 2 if quick else 3}))
+    frp = fr.copy()
+    frp.index = [(7 * i + 3) % len(frp) for i in range(len(frp))]  # index labels: a permutation of the positions
+    subs.append(Sub("numeric-rank-pandas-permuted-index", drv_numeric, {"names": ["A", "B", "a"], "N": 2 if quick else 3, "contrasts": [None, "contr.sum"], "frame": frp,
+                                                                        "output": "pandas"}, shard_depth=3,
+                    bounds={"factors": ["A(3)", "B(2)", "a"], "max_terms": 2 if quick else 3, "output": "pandas", "index": "labels are a permutation of 0..n-1",
+                            "contrasts": ["None", "contr.sum"]}))
     if not quick:
         subs.append(Sub("numeric-rank-4factors", drv_numeric, {"names": ["A", "B", "a", "b"], "N": 2, "contrasts": [None, "contr.sum"], "frame": fr},
                         shard_depth=3, bounds={"factors": ["A(3)", "B(2)", "a", "b"], "max_terms": 2}))
